@@ -272,8 +272,11 @@ int yr_parser_emit_pushes_for_rules(
 
   for (uint32_t i = 0; i <= compiler->current_rule_idx; i++)
   {
-    // Is rule->identifier prefixed by prefix?
-    if (strncmp(prefix, rule->identifier, strlen(prefix)) == 0)
+    // Is this a rule of the current namespace whose identifier is prefixed
+    // by prefix? Rules of other namespaces are not part of the set, and must
+    // not make the current namespace's rule of the same name be pushed twice.
+    if (rule->ns == ns &&
+        strncmp(prefix, rule->identifier, strlen(prefix)) == 0)
     {
       uint32_t rule_idx = yr_hash_table_lookup_uint32(
           compiler->rules_table, rule->identifier, ns->name);
